@@ -1,6 +1,7 @@
 package p20
 
 import (
+	"bytes"
 	"encoding/binary"
 	"errors"
 	"encoding/hex"
@@ -9,6 +10,7 @@ import (
 	"sort"
 	"strconv"
 	"strings"
+	"sync"
 
 	"github.com/aead/siphash"
 
@@ -199,6 +201,65 @@ func execGcs(f []string) string {
 				observe(g, key, qs, true) == observe(flt, key, qs, true)
 		}
 		obs := observe(flt, key, qs, true)
+		// inputs are values: the same key / items / queries objects are reused for three more builds and
+		// for four concurrent observers of the one filter; every call answers the same and the caller's
+		// slices are untouched afterwards; nil and empty-but-non-nil containers are interchangeable
+		inp := true
+		{
+			itemsKeep, qsKeep := deepCopy(items), deepCopy(qs)
+			for k := 0; k < 3; k++ {
+				g, err := gcs.BuildGCSFilter(uint8(p), m, key, items)
+				if err != nil {
+					inp = false
+					break
+				}
+				gb, _ := g.NBytes()
+				inp = inp && string(gb) == string(nb)
+			}
+			var wg sync.WaitGroup
+			res := make([]string, 4)
+			for k := range res {
+				wg.Add(1)
+				go func(k int) {
+					defer wg.Done()
+					defer func() {
+						if recover() != nil {
+							res[k] = "panic"
+						}
+					}()
+					res[k] = observe(flt, key, qs, true)
+				}(k)
+			}
+			wg.Wait()
+			for _, o := range res {
+				inp = inp && o == obs
+			}
+			inp = inp && sameItems(items, itemsKeep) && sameItems(qs, qsKeep)
+			if len(items) == 0 {
+				a, e1 := gcs.BuildGCSFilter(uint8(p), m, key, nil)
+				b, e2 := gcs.BuildGCSFilter(uint8(p), m, key, [][]byte{})
+				if e1 != nil || e2 != nil {
+					inp = false
+				} else {
+					ab, _ := a.NBytes()
+					bb, _ := b.NBytes()
+					inp = inp && string(ab) == string(bb) && string(ab) == string(nb)
+				}
+			}
+			if len(qs) == 0 {
+				inp = inp && observe(flt, key, nil, true) == observe(flt, key, [][]byte{}, true)
+			}
+			raw0, _ := flt.Bytes()
+			if len(raw0) == 0 {
+				a, e1 := gcs.FromBytes(flt.N(), uint8(p), m, nil)
+				b, e2 := gcs.FromBytes(flt.N(), uint8(p), m, []byte{})
+				if e1 != nil || e2 != nil {
+					inp = false
+				} else {
+					inp = inp && observe(a, key, qs, true) == observe(b, key, qs, true)
+				}
+			}
+		}
 		// secondary serialisations agree with the primary one
 		raw, _ := flt.Bytes()
 		pbFull, _ := flt.PBytes()
@@ -246,8 +307,8 @@ func execGcs(f []string) string {
 			val = false
 		}
 		nb = nbKeep
-		return fmt.Sprintf("n=%d nbytes=%s pb=%s np=%s rt=%s ser=%s val=%s %s", flt.N(), hex.EncodeToString(nb),
-			hexTok([]byte{flt.P()}), hex.EncodeToString(np), bit(rt), bit(ser), bit(val), obs)
+		return fmt.Sprintf("n=%d nbytes=%s pb=%s np=%s rt=%s ser=%s val=%s inp=%s %s", flt.N(), hex.EncodeToString(nb),
+			hexTok([]byte{flt.P()}), hex.EncodeToString(np), bit(rt), bit(ser), bit(val), bit(inp), obs)
 	case "from":
 		p, _ := strconv.Atoi(f[1])
 		m := u64(f[2])
@@ -315,8 +376,56 @@ func execGcs(f []string) string {
 			ok, err := flt.Match(key, s)
 			all = all && ok && err == nil
 		}
-		return fmt.Sprintf("n=%d nbytes=%s hash=%s header=%s all=%s", flt.N(), hex.EncodeToString(nb),
-			hex.EncodeToString(fh[:]), hex.EncodeToString(hd[:]), bit(all))
+		// inputs are values: the same block and prev-script slice serve three more sequential and four
+		// concurrent builds; all answer the same filter and leave block and scripts untouched; a nil
+		// and an empty prev-script slice are the same
+		inp := true
+		{
+			var before bytes.Buffer
+			_ = blk.Serialize(&before)
+			prevKeep := deepCopy(prevs)
+			same := func() bool {
+				g, err := builder.BuildBasicFilter(&blk, prevs)
+				if err != nil {
+					return false
+				}
+				gb, _ := g.NBytes()
+				return string(gb) == string(nb)
+			}
+			for k := 0; k < 3; k++ {
+				inp = inp && same()
+			}
+			var wg sync.WaitGroup
+			res := make([]bool, 4)
+			for k := range res {
+				wg.Add(1)
+				go func(k int) {
+					defer wg.Done()
+					defer func() { _ = recover() }()
+					res[k] = same()
+				}(k)
+			}
+			wg.Wait()
+			for _, ok := range res {
+				inp = inp && ok
+			}
+			var after bytes.Buffer
+			_ = blk.Serialize(&after)
+			inp = inp && bytes.Equal(before.Bytes(), after.Bytes()) && sameItems(prevs, prevKeep)
+			if len(prevs) == 0 {
+				a, e1 := builder.BuildBasicFilter(&blk, nil)
+				b, e2 := builder.BuildBasicFilter(&blk, [][]byte{})
+				if e1 != nil || e2 != nil {
+					inp = false
+				} else {
+					ab, _ := a.NBytes()
+					bb, _ := b.NBytes()
+					inp = inp && string(ab) == string(bb)
+				}
+			}
+		}
+		return fmt.Sprintf("n=%d nbytes=%s hash=%s header=%s all=%s inp=%s", flt.N(), hex.EncodeToString(nb),
+			hex.EncodeToString(fh[:]), hex.EncodeToString(hd[:]), bit(all), bit(inp))
 	}
 	return "bad-op"
 }
@@ -1116,4 +1225,27 @@ func genBld(g *core.Gen) {
 		line := fmt.Sprintf("C20 bld %s %s", ctor, strings.Join(fixed, ";"))
 		rec(g, "bld", true, line)
 	}
+}
+
+func deepCopy(xs [][]byte) [][]byte {
+	if xs == nil {
+		return nil
+	}
+	out := make([][]byte, len(xs))
+	for i, x := range xs {
+		out[i] = append([]byte{}, x...)
+	}
+	return out
+}
+
+func sameItems(a, b [][]byte) bool {
+	if len(a) != len(b) {
+		return false
+	}
+	for i := range a {
+		if string(a[i]) != string(b[i]) {
+			return false
+		}
+	}
+	return true
 }
